@@ -8,7 +8,7 @@ import numpy as np
 EPS = np.finfo(float).eps
 
 
-def derivative(f, x0=0.0, steps=(1e-4, 1e-6)):
+def derivative(f, x0=0.0, steps=(1e-4, 1e-6), f_abs_err=0.0):
     """Derivative of the scalar function t -> f(t) at t = 0 (x0 is only used to scale the step).
 
     Returns (R, err, noise) for a smooth coordinate or None when the function looks non-smooth around 0 at both
@@ -26,7 +26,7 @@ def derivative(f, x0=0.0, steps=(1e-4, 1e-6)):
         Dh = (fp - fm) / (2 * h)
         Dh2 = (fp2 - fm2) / h
         R = (4 * Dh2 - Dh) / 3
-        noise = 100 * EPS * np.max(np.abs(vals)) / (h / 2)
+        noise = (100 * EPS * np.max(np.abs(vals)) + f_abs_err) / (h / 2)
         scale = max(abs(R), abs(Dh), 1e-300)
         if abs(Dh - Dh2) > 1e-3 * scale + noise:
             continue
@@ -42,4 +42,9 @@ def derivative(f, x0=0.0, steps=(1e-4, 1e-6)):
 
 
 def tolerance(R, err, noise, scale):
-    return 1e-6 * scale + 10 * err + noise
+    return 1e-6 * scale + 10 * err + noise + 1e-300
+
+
+def ill_conditioned(noise, scale):
+    """The round-off floor of the difference quotient is not small against the derivative: nothing can be decided."""
+    return noise > 1e-3 * max(scale, 1e-300)
